@@ -193,6 +193,8 @@ def k_bytes(base, chk):
 
 def run(chk):
     prog, base = setup(chk)
+    from .common import api_surface, SCALAR_API
+    api_surface(chk, prog, 'Scalar', SCALAR_API, 'C08 (encodings) or C07 (arithmetic)')
     chk.bounds = ["all 2^256 (SetCanonicalBytes, SetBytesWithClamping) and 2^512 (SetUniformBytes) byte strings; every other length via one symbolic length", "all scalars in [0,l) for Bytes"]
     chk.outside = ["ring facts about the Montgomery map (see C07)"]
     chk.assumptions = ["fiat functions summarised by contracts discharged in this run (Int-LF)", "isReduced summarised by its bit-precise contract inside SetCanonicalBytes"]
